@@ -240,10 +240,10 @@ class PyZip:
 
 
 class Exc:
-    __slots__ = ("cls", "payload", "origin")
+    __slots__ = ("cls", "payload", "origin", "excluding")
 
-    def __init__(self, cls, payload=None, origin="callee"):
-        self.cls, self.payload, self.origin = cls, payload, origin
+    def __init__(self, cls, payload=None, origin="callee", excluding=()):
+        self.cls, self.payload, self.origin, self.excluding = cls, payload, origin, tuple(excluding)
 
     def __repr__(self):
         return f"Exc({self.cls})"
@@ -1663,7 +1663,7 @@ class Engine:
                         g["#handling"] = _prev
                         return after(St(s4.env, s4.heap, s4.pc, g))
                     return self.ex(h.body, s3, fr_out, done)
-                if exc.cls == "Any" and names is not None:
+                if exc.cls == "Any" and names is not None and not any(n in exc.excluding for n in names):
                     # unknown exception class: it may or may not match; explore both
                     tag = self.fresh("exc_matches", "bool")
                     s_yes = st2.assume(tag)
